@@ -49,13 +49,16 @@ func ReceiveNoHash(ctx context.Context, dst BlobReceiver, br blob.Ref, src io.Re
 }
 
 func receive(ctx context.Context, dst BlobReceiver, br blob.Ref, src io.Reader, checkHash bool) (sb blob.SizedRef, err error) {
-	src = io.LimitReader(src, MaxBlobSize)
 	if checkHash {
 		h := br.Hash()
 		if h == nil {
 			return sb, fmt.Errorf("invalid blob type %v; no registered hash function", br)
 		}
-		src = &checkHashReader{h, br, src, false}
+		// Read one byte more than allowed, so that an oversized body is
+		// noticed instead of being silently cut at the limit.
+		src = &checkHashReader{h: h, br: br, src: io.LimitReader(src, MaxBlobSize+1)}
+	} else {
+		src = io.LimitReader(src, MaxBlobSize)
 	}
 	sb, err = dst.ReceiveBlob(ctx, br, src)
 	if err != nil {
@@ -76,11 +79,19 @@ type checkHashReader struct {
 	br      blob.Ref
 	src     io.Reader
 	corrupt bool
+	n       int64 // bytes read so far
 }
 
 func (c *checkHashReader) Read(p []byte) (n int, err error) {
 	n, err = c.src.Read(p)
 	c.h.Write(p[:n])
+	c.n += int64(n)
+	if c.n > MaxBlobSize {
+		// Too large; in particular its first MaxBlobSize bytes must not be
+		// accepted under their own digest.
+		c.corrupt = true
+		return n, ErrCorruptBlob
+	}
 	if errors.Is(err, io.EOF) && !c.br.HashMatches(c.h) {
 		err = ErrCorruptBlob
 		c.corrupt = true
